@@ -23,6 +23,39 @@ Theorem C15_visit_once : forall n vis,
 Proof. intros n vis. apply (dfs_fresh (size n)). apply le_n. Qed.
 Print Assumptions C15_visit_once.
 
+(* visit as repaired: ONE visited set for objects and containers, each expanded only the first time it is met
+   (a container shared many times, or — outside this finite model — one that contains itself) *)
+Theorem C15_visit_marks_containers : forall fuel stack vis out,
+  sizes stack <= fuel ->
+  visit_loop2 fuel stack vis out = Some (let '(o, v) := dfs2_list stack vis in (out ++ o, v)).
+Proof. exact visit2_is_dfs2. Qed.
+Print Assumptions C15_visit_marks_containers.
+
+(* ... every yielded identity is new and none is yielded twice ... *)
+Theorem C15_visit_marked_once : forall n vis,
+  let '(o, v) := dfs2 n vis in
+  (forall i, In i o -> ~ In i vis) /\ NoDup o /\ (forall i, In i o \/ In i vis -> In i v).
+Proof. intros n vis. apply (dfs2_fresh (size n)). apply le_n. Qed.
+Print Assumptions C15_visit_marked_once.
+
+(* ... and nothing reachable is lost by skipping a container met before: every object of the tree is yielded, when
+   an identity stands for one node (two occurrences of an identity have the same children: `sub`) and identities of
+   containers and objects differ *)
+Theorem C15_visit_marked_complete : forall (sub : nat -> list node) n,
+  wf sub n -> (forall i, In i (objs n) -> ~ In i (conts n)) ->
+  forall i, In i (objs n) -> In i (fst (dfs2 n [])).
+Proof. exact visit2_complete. Qed.
+Print Assumptions C15_visit_marked_complete.
+
+(* not vacuous: a list shared twice below an object satisfies wf, and is expanded once *)
+Example C15_shared_container_witness :
+  let shared := Cont 5 [Obj 6 []; Obj 7 []] in
+  let t := Obj 1 [shared; Cont 8 [shared; Obj 9 []]] in
+  wf (fun i => match i with 1 => [shared; Cont 8 [shared; Obj 9 []]] | 5 => [Obj 6 []; Obj 7 []] | 8 => [shared; Obj 9 []] | _ => [] end) t
+  /\ fst (dfs2 t []) = [1; 6; 7; 9]
+  /\ visit_loop2 20 [t] [] [] = Some ([1; 6; 7; 9], [9; 8; 7; 6; 5; 1]).
+Proof. vm_compute. repeat split; auto. Qed.
+
 (* traverse emits exactly the bracketed recursive event sequence: one entering and
    one finished event per occurrence (root, field, element, dict entry), a container's
    two events enclosing those of its children, a container already seen is not expanded again *)
